@@ -235,3 +235,71 @@ package walstore
 //@   ensures proposal_sender: result1 == nil && record.Kind == 1 && record.EntryKind == 2 ==> limbsAt(result0, len(payload) + 18, record.ProposalEntry.Sender[0], record.ProposalEntry.Sender[1], record.ProposalEntry.Sender[2], record.ProposalEntry.Sender[3])
 //@   ensures proposal_round: result1 == nil && record.Kind == 1 && record.EntryKind == 2 ==> le64at(result0, len(payload) + 50) == uint64(record.ProposalEntry.ValidRound) && result0[len(payload) + 58] == ite(record.ProposalEntry.Value == nil, 0, 1)
 //@   ensures proposal_value: result1 == nil && record.Kind == 1 && record.EntryKind == 2 && record.ProposalEntry.Value != nil ==> limbsAt(result0, len(payload) + 59, valueLimb(*record.ProposalEntry.Value, 0), valueLimb(*record.ProposalEntry.Value, 1), valueLimb(*record.ProposalEntry.Value, 2), valueLimb(*record.ProposalEntry.Value, 3))
+
+// ---- record decoder, record level -------------------------------------------------------------
+// Proposal payload: header (48), valid round (8), presence byte, optional value (32).
+//@ func decodeProposalRecord
+//@   props C14
+//@   arith int
+//@   coretypes
+//@   requires decoder != nil && wfDecoder(decoder)
+//@   modifies decoder.pos
+//@   ensures ok: result1 == nil ==> result0 != nil && fresh(result0) && old(decoder.pos) + 57 <= len(decoder.data)
+//@   ensures header: result1 == nil ==> uint64(result0.Height) == le64at(decoder.data, old(decoder.pos)) && uint64(result0.Round) == le64at(decoder.data, old(decoder.pos) + 8) && limbsAt(decoder.data, old(decoder.pos) + 16, result0.Sender[0], result0.Sender[1], result0.Sender[2], result0.Sender[3]) && uint64(result0.ValidRound) == le64at(decoder.data, old(decoder.pos) + 48)
+//@   ensures absent: result1 == nil && decoder.data[old(decoder.pos) + 56] == 0 ==> result0.Value == nil && decoder.pos == old(decoder.pos) + 57
+//@   ensures present: result1 == nil && decoder.data[old(decoder.pos) + 56] != 0 ==> decoder.data[old(decoder.pos) + 56] == 1 && result0.Value != nil && fresh(result0.Value) && decoder.pos == old(decoder.pos) + 89 && decoder.pos <= len(decoder.data) && limbsAt(decoder.data, old(decoder.pos) + 57, valueLimb(*result0.Value, 0), valueLimb(*result0.Value, 1), valueLimb(*result0.Value, 2), valueLimb(*result0.Value, 3))
+//@   ensures complete0: old(decoder.pos) + 57 <= len(decoder.data) && decoder.data[old(decoder.pos) + 56] == 0 ==> result1 == nil
+//@   ensures wf: wfDecoder(decoder)
+
+// One entry record after the kind byte: entry kind, then the payload of that kind.
+//@ func decodeWALEntryRecord
+//@   props C14
+//@   arith int
+//@   coretypes
+//@   requires decoder != nil && wfDecoder(decoder)
+//@   modifies decoder.pos
+//@   ensures kind: result1 == nil ==> old(decoder.pos) < len(decoder.data) && uint8(result0.EntryKind) == decoder.data[old(decoder.pos)] && 1 <= result0.EntryKind && result0.EntryKind <= 5 && result0.Kind == record.Kind && result0.Height == record.Height
+//@   ensures start: result1 == nil && result0.EntryKind == 1 ==> decoder.pos == old(decoder.pos) + 9 && decoder.pos <= len(decoder.data) && uint64(result0.StartHeight) == le64at(decoder.data, old(decoder.pos) + 1)
+//@   ensures timeout: result1 == nil && result0.EntryKind == 5 ==> decoder.pos == old(decoder.pos) + 18 && decoder.pos <= len(decoder.data) && result0.TimeoutEntry != nil && uint8(result0.TimeoutEntry.Step) == decoder.data[old(decoder.pos) + 1] && uint64(result0.TimeoutEntry.Height) == le64at(decoder.data, old(decoder.pos) + 2) && uint64(result0.TimeoutEntry.Round) == le64at(decoder.data, old(decoder.pos) + 10)
+//@   ensures prevote: result1 == nil && result0.EntryKind == 3 ==> result0.PrevoteEntry != nil && old(decoder.pos) + 50 <= len(decoder.data) && uint64(result0.PrevoteEntry.Height) == le64at(decoder.data, old(decoder.pos) + 1) && uint64(result0.PrevoteEntry.Round) == le64at(decoder.data, old(decoder.pos) + 9) && limbsAt(decoder.data, old(decoder.pos) + 17, result0.PrevoteEntry.Sender[0], result0.PrevoteEntry.Sender[1], result0.PrevoteEntry.Sender[2], result0.PrevoteEntry.Sender[3])
+//@   ensures prevote_absent: result1 == nil && result0.EntryKind == 3 && decoder.data[old(decoder.pos) + 49] == 0 ==> result0.PrevoteEntry.ID == nil && decoder.pos == old(decoder.pos) + 50
+//@   ensures prevote_present: result1 == nil && result0.EntryKind == 3 && decoder.data[old(decoder.pos) + 49] != 0 ==> decoder.data[old(decoder.pos) + 49] == 1 && result0.PrevoteEntry.ID != nil && decoder.pos == old(decoder.pos) + 82 && decoder.pos <= len(decoder.data) && limbsAt(decoder.data, old(decoder.pos) + 50, (*result0.PrevoteEntry.ID)[0], (*result0.PrevoteEntry.ID)[1], (*result0.PrevoteEntry.ID)[2], (*result0.PrevoteEntry.ID)[3])
+//@   ensures precommit: result1 == nil && result0.EntryKind == 4 ==> result0.PrecommitEntry != nil && old(decoder.pos) + 50 <= len(decoder.data) && uint64(result0.PrecommitEntry.Height) == le64at(decoder.data, old(decoder.pos) + 1) && uint64(result0.PrecommitEntry.Round) == le64at(decoder.data, old(decoder.pos) + 9) && limbsAt(decoder.data, old(decoder.pos) + 17, result0.PrecommitEntry.Sender[0], result0.PrecommitEntry.Sender[1], result0.PrecommitEntry.Sender[2], result0.PrecommitEntry.Sender[3])
+//@   ensures precommit_absent: result1 == nil && result0.EntryKind == 4 && decoder.data[old(decoder.pos) + 49] == 0 ==> result0.PrecommitEntry.ID == nil && decoder.pos == old(decoder.pos) + 50
+//@   ensures precommit_present: result1 == nil && result0.EntryKind == 4 && decoder.data[old(decoder.pos) + 49] != 0 ==> decoder.data[old(decoder.pos) + 49] == 1 && result0.PrecommitEntry.ID != nil && decoder.pos == old(decoder.pos) + 82 && decoder.pos <= len(decoder.data) && limbsAt(decoder.data, old(decoder.pos) + 50, (*result0.PrecommitEntry.ID)[0], (*result0.PrecommitEntry.ID)[1], (*result0.PrecommitEntry.ID)[2], (*result0.PrecommitEntry.ID)[3])
+//@   ensures proposal: result1 == nil && result0.EntryKind == 2 ==> result0.ProposalEntry != nil && old(decoder.pos) + 58 <= len(decoder.data) && uint64(result0.ProposalEntry.Height) == le64at(decoder.data, old(decoder.pos) + 1) && uint64(result0.ProposalEntry.Round) == le64at(decoder.data, old(decoder.pos) + 9) && limbsAt(decoder.data, old(decoder.pos) + 17, result0.ProposalEntry.Sender[0], result0.ProposalEntry.Sender[1], result0.ProposalEntry.Sender[2], result0.ProposalEntry.Sender[3]) && uint64(result0.ProposalEntry.ValidRound) == le64at(decoder.data, old(decoder.pos) + 49)
+//@   ensures proposal_absent: result1 == nil && result0.EntryKind == 2 && decoder.data[old(decoder.pos) + 57] == 0 ==> result0.ProposalEntry.Value == nil && decoder.pos == old(decoder.pos) + 58
+//@   ensures proposal_present: result1 == nil && result0.EntryKind == 2 && decoder.data[old(decoder.pos) + 57] != 0 ==> decoder.data[old(decoder.pos) + 57] == 1 && result0.ProposalEntry.Value != nil && decoder.pos == old(decoder.pos) + 90 && decoder.pos <= len(decoder.data) && limbsAt(decoder.data, old(decoder.pos) + 58, valueLimb(*result0.ProposalEntry.Value, 0), valueLimb(*result0.ProposalEntry.Value, 1), valueLimb(*result0.ProposalEntry.Value, 2), valueLimb(*result0.ProposalEntry.Value, 3))
+//@   ensures complete_start: old(decoder.pos) + 9 <= len(decoder.data) && decoder.data[old(decoder.pos)] == 1 ==> result1 == nil
+//@   ensures complete_timeout: old(decoder.pos) + 18 <= len(decoder.data) && decoder.data[old(decoder.pos)] == 5 ==> result1 == nil
+//@   ensures complete_vote0: old(decoder.pos) + 50 <= len(decoder.data) && (decoder.data[old(decoder.pos)] == 3 || decoder.data[old(decoder.pos)] == 4) && decoder.data[old(decoder.pos) + 49] == 0 ==> result1 == nil
+//@   ensures complete_vote1: old(decoder.pos) + 82 <= len(decoder.data) && (decoder.data[old(decoder.pos)] == 3 || decoder.data[old(decoder.pos)] == 4) && decoder.data[old(decoder.pos) + 49] == 1 ==> result1 == nil
+//@   ensures complete_proposal0: old(decoder.pos) + 58 <= len(decoder.data) && decoder.data[old(decoder.pos)] == 2 && decoder.data[old(decoder.pos) + 57] == 0 ==> result1 == nil
+//@   ensures wf: wfDecoder(decoder)
+
+// A whole record payload: decoding succeeds only on exactly the layouts the encoder produces (no
+// trailing bytes), and returns the fields stored at the encoder's positions.
+//@ func decodeWALRecord
+//@   props C14
+//@   arith int
+//@   coretypes
+//@   ensures kinds: result1 == nil ==> len(payload) >= 1 && uint8(result0.Kind) == payload[0] && (result0.Kind == 1 || result0.Kind == 2)
+//@   ensures prune: result1 == nil && result0.Kind == 2 ==> len(payload) == 9 && uint64(result0.Height) == le64at(payload, 1)
+//@   ensures entrykind: result1 == nil && result0.Kind == 1 ==> len(payload) >= 2 && uint8(result0.EntryKind) == payload[1] && 1 <= result0.EntryKind && result0.EntryKind <= 5
+//@   ensures start: result1 == nil && result0.Kind == 1 && result0.EntryKind == 1 ==> len(payload) == 10 && uint64(result0.StartHeight) == le64at(payload, 2)
+//@   ensures timeout: result1 == nil && result0.Kind == 1 && result0.EntryKind == 5 ==> len(payload) == 19 && result0.TimeoutEntry != nil && uint8(result0.TimeoutEntry.Step) == payload[2] && uint64(result0.TimeoutEntry.Height) == le64at(payload, 3) && uint64(result0.TimeoutEntry.Round) == le64at(payload, 11)
+//@   ensures prevote: result1 == nil && result0.Kind == 1 && result0.EntryKind == 3 ==> result0.PrevoteEntry != nil && len(payload) >= 51 && uint64(result0.PrevoteEntry.Height) == le64at(payload, 2) && uint64(result0.PrevoteEntry.Round) == le64at(payload, 10) && limbsAt(payload, 18, result0.PrevoteEntry.Sender[0], result0.PrevoteEntry.Sender[1], result0.PrevoteEntry.Sender[2], result0.PrevoteEntry.Sender[3])
+//@   ensures prevote_absent: result1 == nil && result0.Kind == 1 && result0.EntryKind == 3 && payload[50] == 0 ==> result0.PrevoteEntry.ID == nil && len(payload) == 51
+//@   ensures prevote_present: result1 == nil && result0.Kind == 1 && result0.EntryKind == 3 && payload[50] != 0 ==> payload[50] == 1 && result0.PrevoteEntry.ID != nil && len(payload) == 83 && limbsAt(payload, 51, (*result0.PrevoteEntry.ID)[0], (*result0.PrevoteEntry.ID)[1], (*result0.PrevoteEntry.ID)[2], (*result0.PrevoteEntry.ID)[3])
+//@   ensures precommit: result1 == nil && result0.Kind == 1 && result0.EntryKind == 4 ==> result0.PrecommitEntry != nil && len(payload) >= 51 && uint64(result0.PrecommitEntry.Height) == le64at(payload, 2) && uint64(result0.PrecommitEntry.Round) == le64at(payload, 10) && limbsAt(payload, 18, result0.PrecommitEntry.Sender[0], result0.PrecommitEntry.Sender[1], result0.PrecommitEntry.Sender[2], result0.PrecommitEntry.Sender[3])
+//@   ensures precommit_absent: result1 == nil && result0.Kind == 1 && result0.EntryKind == 4 && payload[50] == 0 ==> result0.PrecommitEntry.ID == nil && len(payload) == 51
+//@   ensures precommit_present: result1 == nil && result0.Kind == 1 && result0.EntryKind == 4 && payload[50] != 0 ==> payload[50] == 1 && result0.PrecommitEntry.ID != nil && len(payload) == 83 && limbsAt(payload, 51, (*result0.PrecommitEntry.ID)[0], (*result0.PrecommitEntry.ID)[1], (*result0.PrecommitEntry.ID)[2], (*result0.PrecommitEntry.ID)[3])
+//@   ensures proposal: result1 == nil && result0.Kind == 1 && result0.EntryKind == 2 ==> result0.ProposalEntry != nil && len(payload) >= 59 && uint64(result0.ProposalEntry.Height) == le64at(payload, 2) && uint64(result0.ProposalEntry.Round) == le64at(payload, 10) && limbsAt(payload, 18, result0.ProposalEntry.Sender[0], result0.ProposalEntry.Sender[1], result0.ProposalEntry.Sender[2], result0.ProposalEntry.Sender[3]) && uint64(result0.ProposalEntry.ValidRound) == le64at(payload, 50)
+//@   ensures proposal_absent: result1 == nil && result0.Kind == 1 && result0.EntryKind == 2 && payload[58] == 0 ==> result0.ProposalEntry.Value == nil && len(payload) == 59
+//@   ensures proposal_present: result1 == nil && result0.Kind == 1 && result0.EntryKind == 2 && payload[58] != 0 ==> payload[58] == 1 && result0.ProposalEntry.Value != nil && len(payload) == 91 && limbsAt(payload, 59, valueLimb(*result0.ProposalEntry.Value, 0), valueLimb(*result0.ProposalEntry.Value, 1), valueLimb(*result0.ProposalEntry.Value, 2), valueLimb(*result0.ProposalEntry.Value, 3))
+//@   ensures accepts_prune: len(payload) == 9 && payload[0] == 2 ==> result1 == nil
+//@   ensures accepts_start: len(payload) == 10 && payload[0] == 1 && payload[1] == 1 ==> result1 == nil
+//@   ensures accepts_timeout: len(payload) == 19 && payload[0] == 1 && payload[1] == 5 ==> result1 == nil
+//@   ensures accepts_vote0: len(payload) == 51 && payload[0] == 1 && (payload[1] == 3 || payload[1] == 4) && payload[50] == 0 ==> result1 == nil
+//@   ensures accepts_vote1: len(payload) == 83 && payload[0] == 1 && (payload[1] == 3 || payload[1] == 4) && payload[50] == 1 ==> result1 == nil
+//@   ensures accepts_proposal0: len(payload) == 59 && payload[0] == 1 && payload[1] == 2 && payload[58] == 0 ==> result1 == nil
